@@ -77,6 +77,17 @@ pub struct RxCfg {
     pub squelch: Option<(f32, f32)>,
     /// AGC gain limits (min, max); None = the builder's defaults
     pub agc: Option<(f32, f32)>,
+    /// further builder options by key: tbu / tbl (timing bandwidth unlocked / locked), tdev (timing max deviation),
+    /// dclen (DC blocker length), agcbw (AGC bandwidth), sqbw (squelch bandwidth)
+    pub more: Vec<(String, f32)>,
+}
+
+/// parse the optional builder keys of an input line
+pub fn more_options(kv: &dyn Fn(&str) -> Option<String>) -> Vec<(String, f32)> {
+    ["tbu", "tbl", "tdev", "dclen", "agcbw", "sqbw"]
+        .iter()
+        .filter_map(|k| kv(k).map(|v| (k.to_string(), v.parse::<f32>().unwrap())))
+        .collect()
 }
 
 pub fn build(cfg: &RxCfg) -> SameReceiver {
@@ -89,6 +100,22 @@ pub fn build(cfg: &RxCfg) -> SameReceiver {
     }
     if let Some((min, max)) = cfg.agc {
         b.with_agc_gain_limits(min, max);
+    }
+    let get = |k: &str| cfg.more.iter().find(|(n, _)| n == k).map(|(_, v)| *v);
+    if get("tbu").is_some() || get("tbl").is_some() {
+        b.with_timing_bandwidth(get("tbu").unwrap_or(0.125), get("tbl").unwrap_or(0.05));
+    }
+    if let Some(v) = get("tdev") {
+        b.with_timing_max_deviation(v);
+    }
+    if let Some(v) = get("dclen") {
+        b.with_dc_blocker_length(v);
+    }
+    if let Some(v) = get("agcbw") {
+        b.with_agc_bandwidth(v);
+    }
+    if let Some(v) = get("sqbw") {
+        b.with_squelch_bandwidth(v);
     }
     b.build()
 }
